@@ -226,7 +226,8 @@ pub fn worker(args: Args) {
         let use_cc = cc_every > 0 && i % cc_every == 0;
         let r = fresh_thread(STACK_64M, move || {
             let (d, mode) = corpus_design(i);
-            let mut rng = Rng::for_case(seed, "C03-stim", i);
+            // stimulus sets are part of the fixed corpus (as in C02): VERIF_SEED selects one of 8
+            let mut rng = Rng::for_case(seed % crate::c02::STIM_SETS, "C03-stim", i);
             let stim = stimulus(&d, &mut rng, cycles);
             let md = default_metadata();
             let a = match accept(&d, &md) {
@@ -551,7 +552,7 @@ pub fn reduce_main(args: Args) {
     let (k, v) = args.get("env").unwrap().split_once('=').unwrap();
     let (k, v) = (k.to_string(), v.to_string());
     let (d0, _) = corpus_design(i);
-    let mut rng = Rng::for_case(args.seed, "C03-stim", i);
+    let mut rng = Rng::for_case(args.seed % crate::c02::STIM_SETS, "C03-stim", i);
     let stim = stimulus(&d0, &mut rng, cycles);
     let cfg = engine_set(true).into_iter().find(|(n, _)| *n == engine).expect("engine").1;
     let differs = move |text: &str, need_clean: bool| -> bool {
